@@ -667,16 +667,18 @@ func (dr *dirRepo) indexLoad(force, locked bool) error {
 	if err != nil {
 		return err
 	}
-	dr.timeCheck = time.Now()
 	if dr.timeIndex.Equal(stat.ModTime()) {
 		// file is unchanged from previous loaded version
+		dr.timeCheck = time.Now()
 		return nil
 	}
 	parseIndex := types.Index{}
 	err = json.NewDecoder(fh).Decode(&parseIndex)
 	if err != nil {
+		// the load is repeated on the next access, the index in memory does not describe the file
 		return err
 	}
+	dr.timeCheck = time.Now()
 	dr.index = parseIndex
 	dr.timeIndex = stat.ModTime()
 	if stat.ModTime().After(dr.timeMod) {
